@@ -1,3 +1,4 @@
+mod c01;
 mod c02;
 mod c03;
 mod c07;
@@ -16,6 +17,7 @@ fn main() {
     logcap::install();
     let args = core::Args::parse();
     match args.prop.to_lowercase().as_str() {
+        "c01" => c01::run(&args),
         "c02" => c02::run(&args),
         "c03" => c03::run(&args),
         "c07" => c07::run(&args),
@@ -23,6 +25,34 @@ fn main() {
         "c12" => c12::run(&args),
         "c13" => c13::run(&args),
         "c16" => c16::run(&args),
+        "rxprobe" => {
+            // vp rxprobe <pattern> <escaped haystack>: what the regex engines say
+            let pat = args.rest.get(0).cloned().unwrap_or_default();
+            let hay = core::unesc(&args.rest.get(1).cloned().unwrap_or_default());
+            let hir = regex_syntax::ParserBuilder::new().utf8(false).multi_line(true).build().parse(&pat).unwrap();
+            let meta = regex_automata::meta::Regex::builder().configure(regex_automata::meta::Regex::config().utf8_empty(false)).build_from_hir(&hir).unwrap();
+            let all: Vec<(usize, usize)> = meta.find_iter(&hay[..]).map(|m| (m.start(), m.end())).collect();
+            println!("meta find_iter: {:?}", all);
+            let nfa = regex_automata::nfa::thompson::Compiler::new()
+                .configure(regex_automata::nfa::thompson::Config::new().utf8(false))
+                .build_from_hir(&hir)
+                .unwrap();
+            let pike = regex_automata::nfa::thompson::pikevm::PikeVM::new_from_nfa(nfa).unwrap();
+            let mut cache = pike.create_cache();
+            let pv: Vec<(usize, usize)> = pike.find_iter(&mut cache, &hay[..]).map(|m| (m.start(), m.end())).collect();
+            println!("pikevm find_iter: {:?}", pv);
+            let re = regex::bytes::Regex::new(&format!("(?m){}", pat)).unwrap();
+            let rv: Vec<(usize, usize)> = re.find_iter(&hay).map(|m| (m.start(), m.end())).collect();
+            println!("regex crate find_iter: {:?}", rv);
+            {
+                use grep_matcher::Matcher;
+                let o = rx::Opts::base(rx::Lt::Lf);
+                let real = o.build(&[&pat]).unwrap();
+                println!("real matcher final hir: {:?}", real.verif_final_hir().to_string());
+                println!("real is_match: {:?} find: {:?} shortest: {:?}", real.is_match(&hay), real.find(&hay), real.shortest_match(&hay));
+            }
+            std::process::exit(0)
+        }
         other => {
             eprintln!("unknown property or tool: {}", other);
             std::process::exit(64);
